@@ -656,7 +656,7 @@ pub fn run_impl(dsl: &str, lazy: bool) -> Obs {
         let functions = Functions::stdlib();
         let globals = Variables::new();
         let config = ExecutionConfig::new(&functions, &globals).lazy(lazy);
-        match file.execute(&tree, SRC, &config, &NoCancellation) {
+        match file.execute(&tree, SRC, &config, &crate::exec::WatchdogFlag::new()) {
             Ok(graph) => {
                 let mut nodes = Vec::new();
                 for n in graph.iter_nodes() {
